@@ -47,19 +47,30 @@
       u in [0,1) the reported bin is floor(u*bins) < bins, the point lies between that bin's boundaries and
       the weight is the product over the dimensions of bins * bin width.
 
+    - [C07_new_boundary_not_below_bin] (every Num, no hypothesis on rounding) and its IEEE instance
+      [C07_new_boundary_not_below_bin_float] (every Flocq binary format): [steps_rel Rel k ...] unfolds the run
+      of [redistribute]: each step scans to an old bin bin'-1 >= 0 with lower edge [prev] = [bin_left p d (bin'-1)]
+      and produces a boundary y with [Rel y prev].  Thanks to the clamp "if (new_left < previous) new_left =
+      previous" (added to the C++ and the model after the correspondence oracle found a valid grid that was
+      refined to a decreasing one in floating point) y is never [ltb]-below prev whenever prev is not
+      [ltb]-below itself; in IEEE arithmetic that holds for every value, so [Bltb y prev = false] always, and
+      for finite y, prev this is prev <= y as real numbers.  Over the reals the clamp is the identity
+      (th <= 1), which is why all the other statements are unchanged.
+
     What is NOT proved
     - u = 1 over the reals: NumR has no number "just below one" ([pred_one NumR = 1]), so the guard for
       u == 1 of the C++ has no real counterpart; with u = 1 the model reads boundary bins+1, which is the next
       dimension's first entry or out of range.  The statements are therefore for u in [0,1).  The float
       fact "every representable u < 1 and the guarded u = 1 give index < bins" is not part of this file.
-    - Nothing about rounding: monotonicity of the new boundaries under floating-point rounding, absence of
-      overflow in the smoothing sums (huge data do produce NaN boundaries), NaN/inf data.  Only the zero-data
-      identity is proved for the IEEE formats.
+    - Nothing else about rounding: full monotonicity of the new boundaries under floating-point rounding
+      (only "not below the lower edge of its old bin" is proved), absence of overflow in the smoothing sums
+      (huge data do produce NaN boundaries), NaN/inf data.  For the IEEE formats only the zero-data identity
+      and the clamp theorem are proved.
     - Grids that are valid but not produced by the library (e.g. set by hand with [set_bin_left]) are
       covered as long as they satisfy [valid_grid]; nothing is claimed for invalid grids except the
       zero-data identity. *)
 From Coq Require Import ZArith NArith List Reals.
-From Flocq Require Import Core.
+From Flocq Require Import Core BinarySingleNaN.
 From HepMC Require Import Num NumB NumR Result VegasPdf Lemmas_C01 Lemmas_C07.
 Import ListNotations.
 Local Open Scope R_scope.
@@ -201,6 +212,25 @@ Theorem C07_icdf_in_bin :
 Proof. exact c07_icdf_in_bin. Qed.
 Print Assumptions C07_icdf_in_bin.
 
+(* every ordered numeric type: a produced boundary is not below the lower edge of its old bin *)
+Theorem C07_new_boundary_not_below_bin :
+  forall (K : Num) k (p : pdf K) d tmp avg bin tb l,
+    redistribute k p d tmp avg bin tb = Ok l ->
+    steps_rel (fun y prev => ltb K prev prev = false -> ltb K y prev = false) k p d tmp avg bin tb l /\ length l = k.
+Proof. exact c07_new_boundary_not_below_bin. Qed.
+Print Assumptions C07_new_boundary_not_below_bin.
+
+(* IEEE formats: unconditional; for finite values, previous <= boundary as real numbers *)
+Theorem C07_new_boundary_not_below_bin_float :
+  forall prec emax Hprec Hmax k (p : pdf (NumB prec emax Hprec Hmax)) d tmp avg bin tb l,
+    redistribute k p d tmp avg bin tb = Ok l ->
+    steps_rel (K := NumB prec emax Hprec Hmax)
+      (fun y prev => Bltb y prev = false /\
+                     (is_finite prev = true -> is_finite y = true -> B2R prev <= B2R y))
+      k p d tmp avg bin tb l /\ length l = k.
+Proof. exact c07_new_boundary_not_below_bin_float. Qed.
+Print Assumptions C07_new_boundary_not_below_bin_float.
+
 (** Non-vacuity: a grid with two dimensions and two bins (boundaries 0, 1/2, 1 and 0, 1/4, 1); data with a
     single non-zero bin in dimension 0 and all-zero data in dimension 1; a chain of three refinements with
     alpha = 3/2, 0, 3; the canonical numbers 0 and 3/4. *)
@@ -224,3 +254,8 @@ Example C07_ex_chain :
 Proof. exact ex_chain. Qed.
 Example C07_ex_numbers : length [0; 3 / 4] = N.to_nat (pdf_dims ex_p) /\ Forall (fun u => 0 <= u < 1) [0; 3 / 4].
 Proof. exact ex_us. Qed.
+Example C07_ex_redistribute_R : exists l, @redistribute NumR 1 ex_p 0 [1; 1] 1 0%N 0 = Ok l /\ length l = 1%nat.
+Proof. exact ex_redistribute_R. Qed.
+Example C07_ex_redistribute_B64 :
+  exists l, @redistribute B64 1 (@uniform_pdf B64 1 2) 0 [one B64; one B64] (one B64) 0 (zero B64) = Ok l.
+Proof. exact ex_redistribute_B64. Qed.
